@@ -19,3 +19,8 @@ PROFILES.update({
     'C09': P(5000, 60, 300000, 1500),
     'C10': P(3000, 90, 150000, 1800),
 })
+PROFILES.update({
+    'C11': P(8000, 60, 400000, 1500),
+    'C12': P(5000, 60, 300000, 1500),
+    'C18': P(5000, 60, 200000, 1500),
+})
